@@ -69,6 +69,19 @@ def cases(rng: random.Random, thorough: bool):
     return out
 
 
+def obj_cases(rng: random.Random, thorough: bool):
+    out = []
+    for xs in LISTS[:7] + [[3, 3, 1]]:
+        for k in (0, 1, 2, 5):
+            out.append(["o_attr", [xs, k]])
+    for a in BYTES[:6]:
+        for b in BYTES[:5]:
+            out.append(["o_with", [a, b]])
+    for parts in ([], [b""], [b"a"], [b"a", b"", b"bc"], [b"", b""], [b"x"] * 5):
+        out.append(["o_with_loop", [parts]])
+    return out
+
+
 def impl(arg):
     name, args = arg
     return getattr(pysem_src, name)(*args)
@@ -76,4 +89,8 @@ def impl(arg):
 
 def units(ctx):
     cs = [] if getattr(ctx, "replay_only", False) else cases(ctx.rng, ctx.thorough)
-    return [Unit("flow.semantics", "pysem.run", cs, impl), Unit("flow.semantics.mut", "pysem.run_mut", cs, impl)]
+    oc = [] if getattr(ctx, "replay_only", False) else obj_cases(ctx.rng, ctx.thorough)
+    # the first interpreter writes a receiver back only when it is a local name: o_attr (b.items.append) is for PyAstMut only
+    oc_plain = [c for c in oc if c[0] != "o_attr"]
+    return [Unit("flow.semantics", "pysem.run", cs, impl), Unit("flow.semantics.mut", "pysem.run_mut", cs, impl),
+            Unit("flow.semantics.obj.mut", "pysem.obj_mut", oc, impl), Unit("flow.semantics.obj", "pysem.obj", oc_plain, impl)]
